@@ -4,7 +4,9 @@ Space (exhaustive, DESIGN 5 C17): a pool of 8 files written by rtflite itself (d
 3-page A4 table, landscape, with page header/footer (+ its own colours), with colour table, multi-section,
 1-figure, 2-figure.  All k-tuples with repetition, k <= 3 (quick: 584) / k <= 4 (thorough: 4680); plus [],
 every single input, and a missing file at every position (one and two missing) with the output path
-absent / pre-existing; rewrite histories inside one process (write X to path P, assemble, rewrite P with Y,
+absent / pre-existing; a second pool of 6 document kinds (single table, paginated table, page_by table, multi-section,
+1 figure, 2 figures) x {no colour, text colour, background, border colour} in first and later positions (all ordered
+pairs, triples); rewrite histories inside one process (write X to path P, assemble, rewrite P with Y,
 assemble again, assemble [P]) for all ordered pairs of pool kinds x all positions of P in 1..3-tuples.
 
 Oracle (from the property text): the output parses strictly; its page list equals the concatenation of the
@@ -50,7 +52,59 @@ POOL = ["t1", "t3", "land", "hf", "col", "multi", "f1", "f2"]
 EXPECTED_PAGES = {"t1": 1, "t3": 3, "land": 1, "hf": 2, "col": 1, "multi": 1, "f1": 1, "f2": 2}
 
 
+# second pool: every document KIND without and with colours (colour-table presence is what changes the preamble shape)
+KINDS = ["t1", "tp", "pb", "ms", "f1", "f2"]          # single table, paginated table, page_by table, multi-section, 1 figure, 2 figures
+COLOURS = ["none", "text", "bg", "border"]            # figure-only documents have no borders: "border" = coloured footnote + source instead
+MATRIX = [f"{k}:{c}" for k in KINDS for c in COLOURS]
+FIGURE_KINDS = ("f1", "f2")
+# Known defect of the pinned tree (proposed finding figure-document-colour-table-shares-font-table-line): a figure-only document
+# WITH a colour table as a later input is cut inside its colour table.  While False those cells are left out of the enumeration
+# (the check stays silent about them); set True once the finding is accepted into known_findings.json or rtflite is repaired.
+ENUMERATE_COLOURED_FIGURE_DOCUMENT_AS_LATER_INPUT = True
+
+
+def matrix_spec(name: str, wd: str) -> dict:
+    kind, colour = name.split(":")
+    if kind in FIGURE_KINDS:
+        spec = pool_spec("f2", wd) if kind == "f2" else {**pool_spec("f1", wd), "title": 1, "title_none": False, "source": "para"}
+        spec = dict(spec)
+        if colour == "text":
+            spec["title_attrs"] = {"text_color": ["red"]}
+        elif colour == "bg":
+            spec["title_attrs"] = {"text_background_color": ["yellow"]}
+            spec["source_attrs"] = {"text_color": ["blue"], "text_background_color": ["gray"]}
+        elif colour == "border":
+            spec["footnote_attrs"] = {"text_color": ["orange"]}
+            spec["source_attrs"] = {"text_color": ["purple"]}
+        return spec
+    base = {"cols": ["s", "i"], "title": 1, "header": "explicit", "footnote": "table", "source": "para", "n": 3, "page": {"nrow": 40}}
+    body = {}
+    if colour == "text":
+        body = {"text_color": ["red"]}
+        base["title_attrs"] = {"text_color": ["green"]}
+    elif colour == "bg":
+        body = {"text_background_color": ["yellow"]}
+        base["footnote_attrs"] = {"text_background_color": ["cyan"]}
+    elif colour == "border":
+        body = {"border_color_top": [["orange"]], "border_color_left": [["blue"]], "border_color_bottom": [["red"]]}
+    if kind == "t1":
+        return {**base, "body": body}
+    if kind == "tp":
+        return {**base, "n": 10, "subline": True, "page": {"nrow": 7}, "body": body}
+    if kind == "pb":
+        return {**base, "n": 4, "page_by": [[0, 0, 1, 1]], "body": body}
+    if kind == "ms":
+        sec = {"cols": ["s", "i"], "header": "explicit"}
+        spec = {k: v for k, v in base.items() if k not in ("cols", "header", "n")}
+        alt = {k: [[("blue" if x == "red" else "red") for x in row] if isinstance(row, list) else ("blue" if row == "red" else "green") for row in v]
+               for k, v in body.items()}
+        return {**spec, "kind": "multi", "sections": [{**sec, "n": 2, "body": body}, {**sec, "n": 3, "body": alt}]}
+    raise ValueError(name)
+
+
 def pool_spec(name: str, wd: str) -> dict:
+    if ":" in name:
+        return matrix_spec(name, wd)
     base = {"cols": ["s", "i"], "title": 1, "header": "explicit", "footnote": "table", "source": "para"}
     if name == "t1":
         return {**base, "n": 3, "page": {"nrow": 40}}
@@ -447,7 +501,12 @@ def eval_case(case: dict) -> dict:
             V("no-output-written", f"inputs {names}: no exception and no output file")
             return {"viol": viol, "nt": False, "cnt": cnt}
         got = check_output(names, inputs, after, V, bump)
+        if any(v["klass"] is None for v in viol):
+            _classify_shared_colortbl_line(rtf, names, inputs, files, out_path, viol)
         # ---- counters
+        for i, nm in enumerate(names):
+            if ":" in nm:
+                bump(("first" if i == 0 else "later") + f"[{nm}]")
         if len(names) > 1:
             geoms = {cjson_geom(i[2][0]["geom"]) for i in inputs}
             if len(geoms) > 1:
@@ -472,6 +531,69 @@ def eval_case(case: dict) -> dict:
             os.remove(out_path)
 
 
+SHARED = b"}{\\colortbl"
+
+
+def _classify_shared_colortbl_line(rtf, names, inputs, files, out_path, viol):
+    """Narrow classifier for `figure-document-colour-table-shares-font-table-line`.
+
+    Mechanism: a figure-only document writes the closing brace of the font table and `{\\colortbl;` on ONE line, so for a later
+    input assemble_rtf (which skips "2 lines after the last \\fcharset line") starts inside the colour table.  The unclassified
+    violations of this case are *completely explained* by it iff assembling the same inputs, with nothing changed except a line
+    break inserted between `}` and `{\\colortbl;` in the later inputs that have them on one line (white space RTF ignores; the
+    files parse to the same pages), satisfies the whole oracle.  Anything else wrong keeps klass None."""
+    later = [i for i in range(1, len(inputs)) if SHARED in inputs[i][1]]
+    if not later:
+        return
+    alt_files, tmp = list(files), []
+    try:
+        for i in later:
+            q = f"{out_path}.split{i}.rtf"
+            with open(q, "wb") as f:
+                f.write(inputs[i][1].replace(SHARED, b"}\n{\\colortbl", 1))
+            alt_files[i] = q
+            tmp.append(q)
+        out2 = out_path + ".alt.rtf"
+        tmp.append(out2)
+        try:
+            rtf.assemble_rtf(input_files=alt_files, output_file=out2)
+            with open(out2, "rb") as f:
+                after2 = f.read()
+        except Exception:
+            return
+        v2 = []
+        check_output(names, inputs, after2, lambda sig, detail, klass=None: v2.append(klass), lambda k: None)
+        if any(k is None for k in v2):
+            return
+        fresh = [v for v in viol if v["klass"] is None]
+        key = "figure-document-colour-table-shares-font-table-line"
+        viol[:] = [v for v in viol if v["klass"] is not None]
+        viol.append({"klass": key, "sig": key,
+                     "detail": f"inputs {names}: later input(s) {[names[i] for i in later]} (figure-only, with colours) have the font table's closing brace and "
+                               "'{\\colortbl;' on one line, so the splice starts inside their colour table; with a line break between the two (same RTF) "
+                               f"the output satisfies the whole oracle. First message: {fresh[0]['detail'][:200]}"})
+    finally:
+        for q in tmp:
+            if os.path.exists(q):
+                os.remove(q)
+
+
+def matrix_cases(full: bool):
+    """Every document kind x colour variant in first and later positions: all ordered pairs; triples with every matrix document in the
+    middle (quick: between two fixed pairs of neighbours; thorough: all triples)."""
+    def allowed(t):
+        if ENUMERATE_COLOURED_FIGURE_DOCUMENT_AS_LATER_INPUT:
+            return True
+        return not any(nm.split(":")[0] in FIGURE_KINDS and not nm.endswith(":none") for nm in t[1:])
+
+    tuples = list(itertools.product(MATRIX, repeat=2))
+    if full:
+        tuples += list(itertools.product(MATRIX, repeat=3))
+    else:
+        tuples += [(x, a, y) for a in MATRIX for x in ("tp:text", "f2:border") for y in ("t1:border", "f1:none")]
+    return [{"inputs": list(t)} for t in tuples if allowed(t)]
+
+
 def cjson_geom(g):
     return tuple(sorted(g.items()))
 
@@ -485,6 +607,10 @@ def plan(run):
     run.rule = (f"pool of 8 rtflite-written files {POOL}; every k-tuple with repetition for k = 1..{kmax} "
                 f"({sum(8 ** k for k in range(1, kmax + 1))}); [] with output absent/pre-existing; one missing file at every position of every "
                 f"length 1..{kmax} x every pool file as the other inputs x output absent/pre-existing; two missing files. "
+                f"kind x colour matrix: {len(KINDS)} document kinds {KINDS} x {COLOURS} = {len(MATRIX)} files, all ordered pairs and "
+                f"{'all triples' if not quick else 'every file as the middle input of 4 triples'}"
+                + ("" if ENUMERATE_COLOURED_FIGURE_DOCUMENT_AS_LATER_INPUT else " EXCEPT tuples with a coloured figure-only document as a later input "
+                   "(known defect, see ENUMERATE_COLOURED_FIGURE_DOCUMENT_AS_LATER_INPUT)") + "; "
                 "rewrite histories in ONE process: every ordered pair (X, Y) of distinct pool kinds (56) x every tuple shape of length 1..3 holding the "
                 f"rewritten path P at every position ({'all other inputs' if not quick else 'other inputs of one kind'}, incl. P listed twice; "
                 f"{len(history_shapes(not quick))} shapes): write X to P, assemble, rewrite P with Y, assemble the same tuple, assemble [P]. "
@@ -511,6 +637,9 @@ def plan(run):
                 for o in ("absent", "existing"):
                     err.append({"inputs": [POOL[(run.seed + a + b) % 8]] * k, "missing": [a, b], "output": o})
         run.layer("error-paths", "mc.props.c17:eval_case", err, chunk=12, total=len(err))
+        # every document kind without / with colours (text, background, border) in first and later positions
+        mx = matrix_cases(not quick)
+        run.layer("kind-x-colour", "mc.props.c17:eval_case", mx, chunk=12, total=len(mx))
         # histories inside one process: same path, different content between two calls
         hist = [{"x": x, "y": y, "tuple": shp} for x, y in itertools.permutations(POOL, 2) for shp in history_shapes(not quick)]
         run.layer("rewrite-histories", "mc.props.c17:eval_case", hist, chunk=25, total=len(hist))
@@ -521,6 +650,11 @@ def plan(run):
         if want is not None and not run.cnt.get(f"pages[{nm}]={want}"):
             run.harness_errors.append({"layer": "vacuity", "case": None, "error": f"pool file {nm} does not have {want} page(s): "
                                        + str({k: v for k, v in run.cnt.items() if k.startswith(f'pages[{nm}]')})})
+    for nm in MATRIX:
+        later_ok = ENUMERATE_COLOURED_FIGURE_DOCUMENT_AS_LATER_INPUT or nm.endswith(":none") or nm.split(":")[0] not in FIGURE_KINDS
+        for pos in ("first", "later") if later_ok else ("first",):
+            if not run.cnt.get(f"{pos}[{nm}]"):
+                run.harness_errors.append({"layer": "vacuity", "case": None, "error": f"matrix file {nm} never occurred as {pos} input"})
     for need in ("mixed-geometry", "later-input-with-colour-table", "later-input-with-page-header", "figure-input",
                  "same-input-twice-in-a-row", "missing-input", "empty-list", "single-input", "history-rewrite",
                  "history-path-listed-twice", "history-rewritten-path-not-first"):
